@@ -34,3 +34,35 @@ def _(self: DefaultDeploymentManager, deployment_name: Str) -> Opt[Connector]:
     assigns()
     ensures((result is None) == (deployment_name not in self.deployments_map))
     ensures(implies(deployment_name in self.deployments_map, result == self.deployments_map[deployment_name]))
+
+
+# ---- a failed deployment: gone from the live map, holding nothing alive, its waiters woken -----------------------------------------
+cls("Event", is_set=Bool)
+cls("DefaultDeploymentManager2", bases=["DefaultDeploymentManager"], events_map=Dict[Str, Event])
+
+
+@extern("Event.set")
+def _(self: Event):
+    assigns(self.is_set)
+    ensures(self.is_set)
+
+
+@contract("streamflow/deployment/manager.py", "DefaultDeploymentManager._set_failed")
+def _(self: DefaultDeploymentManager2, deployment_name: Str):
+    requires(deployment_name in self.events_map)
+    assigns(self.deployments_map, self.dependency_graph, self.events_map[deployment_name].is_set)
+    # the failed deployment is not live (a request that waited for it fails instead of using a connector that does not exist) ...
+    ensures(deployment_name not in self.deployments_map)
+    ensures(forall(Str, lambda k: implies(k != deployment_name, (k in self.deployments_map) == old(k in self.deployments_map)
+                                          and implies(k in self.deployments_map, self.deployments_map[k] is old(self.deployments_map[k])))))
+    # ... it keeps nothing alive: it is in no dependency set any more, and nothing else left or entered one ...
+    ensures(forall(Str, lambda k: (k in self.dependency_graph) == old(k in self.dependency_graph)))
+    ensures(forall(self.dependency_graph, lambda k: deployment_name not in self.dependency_graph[k]
+                   and forall(Str, lambda x: implies(x != deployment_name, (x in self.dependency_graph[k]) == old(x in self.dependency_graph[k])))))
+    # ... and everybody waiting for it is woken (to fail as well)
+    ensures(self.events_map[deployment_name].is_set)
+    hint("loop0:init", let(G0=self.dependency_graph))
+    invariant(0, forall(Str, lambda k: (k in self.dependency_graph) == (k in G0)), index="d")
+    invariant(0, forall(Str, Str, lambda k, x: implies(k in G0, (x in self.dependency_graph[k]) == (x in G0[k] and not (k in d and x == deployment_name)))))
+    invariant(0, deployment_name not in self.deployments_map and forall(Str, lambda k: implies(k != deployment_name, (k in self.deployments_map) == old(k in self.deployments_map)
+                                          and implies(k in self.deployments_map, self.deployments_map[k] is old(self.deployments_map[k])))))
